@@ -106,6 +106,20 @@ PROPS["C16"] = {
     ],
 }
 
+PROPS["C17"] = {
+    "technique": "model-based property testing (rapid operation sequences + exhaustive short histories) of the range cache against the file bytes, with injected fetch failures; concurrent replay; end-to-end loopback HTTP reader",
+    "level_text": "Histories of GetRange/SetRange/expiry over files of 8..4096 bytes (valid, nested, overlapping, adjacent, zero-length, out-of-range and negative ranges) are generated with fetch failures injected at chosen reads (optionally scribbling into the buffer first); every successful read must equal the file bytes, a read fails only when invalid or when its own fetch failed, and after a failed fetch the same read returns the true bytes. All histories of length <=2 (quick) / <=3 (thorough) over a 6-byte file are enumerated. 4-16 goroutines replay generated read lists with poisoned ranges and concurrent expiry. The HTTP reader is driven against a loopback server that answers 500 / 500 with a long body / ignores Range on command. Exploration level.",
+    "level_note": "The remote is the harness's own fetcher/server; it serves every in-range request unless a failure is injected. Goroutine schedules are perturbed, not enumerated. OccupiedSpace accounting is not part of the property and not judged.",
+    "rule": ("rapid draws file size and 1..60 operations with range classes; non-trivial = history with a read served from a cached superset, a SetRange replacing cached subsets, or an injected failure; exhaustive unit enumerates all histories up to the stated length; distinct by case hash"),
+    "assumptions": ["time.Since(entry) > -1h is always true (used to force expiry)"],
+    "units": [
+        {"name": "histories", "pkg": "./range-cache", "run": "TestVfC17", "checks": T(20000, 1000000), "shards": T(4, 16), "timeout": T(600, 3000)},
+        {"name": "exhaustive", "pkg": "./range-cache", "run": "TestVfC17Exhaustive", "kind": "plain", "checks": 0, "shards": T(4, 16), "timeout": T(600, 3000), "env": {"VERIF_C17_LEN": T(2, 3)}},
+        {"name": "concurrent", "pkg": "./range-cache", "run": "TestVfC17Concurrent", "checks": T(300, 20000), "shards": T(2, 8), "timeout": T(600, 3000)},
+        {"name": "http", "pkg": "./split-car-fetcher", "run": "TestVfC17HTTP", "replay": "TestVfReplayC17HTTP", "checks": T(150, 6000), "shards": T(3, 12), "timeout": T(600, 3000)},
+    ],
+}
+
 
 # properties not (yet) claimed by a check; kept current by hand
 NOT_APPLICABLE = [
